@@ -23,6 +23,10 @@ def vis_of(a, all_):
         return True
     if all_ == 'N':
         return a.__class__ is ast.Name
+    if all_ == 'L':
+        return a.__class__ is ast.List
+    if all_ == 'LN':
+        return a.__class__ in (ast.List, ast.Name)
     if isinstance(a, _NOVIS):
         return False
     if a.__class__ is ast.arguments:
@@ -31,7 +35,13 @@ def vis_of(a, all_):
 
 
 def all_param(all_):
-    return {'T': True, 'F': False, 'N': ast.Name}[all_]
+    return {'T': True, 'F': False, 'N': ast.Name, 'L': ast.List, 'LN': {ast.List, ast.Name}}[all_]
+
+
+def search_pattern(all_):
+    """class-only patterns: every node of these classes matches, so search() == walk(all=classes) + send forwarding"""
+    import fst.match as M
+    return {'N': M.MName, 'L': M.MList, 'LN': M.MOR(M.MName, M.MList)}[all_]
 
 
 class Numbering:
@@ -192,8 +202,12 @@ def run_case(case, FST, oracle=True):
     def bad(cls, detail, mut=None):
         viol.append((cls, detail, mut or res['last_mut']))
 
+    srch = case.get('search')            # {'nested': bool}: the consumer drives FST.search() instead of FST.walk()
     try:
-        gen = wroot.walk(all_param(all_), on, **kw)
+        if srch:
+            gen = wroot.search(search_pattern(all_), srch['nested'], on=on, **kw)
+        else:
+            gen = wroot.walk(all_param(all_), on, **kw)
     except Exception as e:
         res['end'] = 'exc-create:' + type(e).__name__
         return res
@@ -202,6 +216,7 @@ def run_case(case, FST, oracle=True):
     seen_enter = set()
     sent_true_on_leave = False
     nested_roots = set()
+    seen_leave = set()
     any_send_true = False
     # expectations set by the previous yield's actions, checked at the following yields
     expect = None
@@ -219,6 +234,12 @@ def run_case(case, FST, oracle=True):
         item = None
     while item is not None:
         f, leaving = item if on == 'both' else (item, on == 'leave')
+        if srch:
+            f = getattr(f, 'matched', None)
+        if not hasattr(f, 'a') or not hasattr(f, 'pfield'):
+            bad('bad-yield', f'yield {k}: the generator yielded {f!r} which is not a node')
+            res['end'] = 'bad-yield'
+            break
         a = f.a
         if first_ast is None and a is not None:
             first_ast = a
@@ -236,6 +257,11 @@ def run_case(case, FST, oracle=True):
                         bad('root-identity', f'yield {k}: node.root is not the walk tree root')
                 except Exception as e:
                     bad('root-identity', f'yield {k}: node.root raised {e!r}')
+                if leaving:
+                    if (id(f), id(a)) in seen_leave and not sent_true_on_leave:
+                        bad('double-leave', f'yield {k}: {a.__class__.__name__} yielded on leaving twice (same FST, same AST) '
+                                            'without any send(True)', ('remove', 'collapse') if res.get('moved') else None)
+                    seen_leave.add((id(f), id(a)))
                 if not leaving:
                     if id(a) in seen_enter and not sent_true_on_leave:
                         bad('double-entry', f'yield {k}: {a.__class__.__name__} entered twice')
@@ -316,6 +342,10 @@ def run_case(case, FST, oracle=True):
             if oracle:
                 _check_wf(root, num, bad, k)
         else:
+            if srch and not srch['nested'] and did_send is None:
+                did_send = False        # search(nested=False) sends False itself when the consumer did not send
+                if not leaving:
+                    acts = acts or [['send', False]]
             if oracle and a is not None and not leaving and acts:
                 expect = _make_expect(case, root, f, a, did_send, cur_replaced, cur_removed, any_send_true, acts, wroot, follow)
             elif oracle and a is not None and leaving and did_send is True and not case.get('scope'):
@@ -414,10 +444,15 @@ def _vis_desc(a, all_, back):
     return out
 
 
+def _has_fstring(a):
+    """positions inside f-strings (debug `{x = }` text, nested format specs) do not give a reliable document order"""
+    return any(n.__class__.__name__ in ('JoinedStr', 'TemplateStr') for n in ast.walk(a))
+
+
 def _following(wroot_ast, cur_ast, all_, back):
     """the visible node that follows the subtree of `cur_ast` in walk order below the walk root (None: nothing follows;
     'unknown': cannot tell)"""
-    if wroot_ast is None or cur_ast is wroot_ast:
+    if wroot_ast is None or cur_ast is wroot_ast or _has_fstring(wroot_ast):
         return 'unknown'
     order = _vis_desc(wroot_ast, all_, back)
     idx = next((i for i, n in enumerate(order) if n is cur_ast), None)
@@ -452,7 +487,7 @@ def _make_expect(case, root, f, a, did_send, cur_replaced, cur_removed, any_send
             return None
         return {'kind': 'removed', 'follow': follow, 'f': f}
     na = f.a
-    if na is None:
+    if na is None or _has_fstring(na):
         return None
     desc = _vis_desc(na, all_, back)
     if did_send is False:
@@ -495,6 +530,8 @@ def _make_rewalk(case, root, f, is_gen_root, cur_replaced):
     na = f.a
     if na is None or getattr(na, 'f', None) is not f or id(na) not in _reachable(root.a) or _pos_key(na) is None:
         return None                 # gone, or a position-less leaf (ctx / operator under all=True): nothing to order
+    if _has_fstring(na):
+        return None
     all_, back = case.get('all', 'F'), case.get('back', False)
     pre = 'root-' if is_gen_root else ''
     mut = ('replace', 'cur') if cur_replaced else None      # the cause, whatever else the script did in this step
